@@ -23,6 +23,8 @@
 #include <chrono>
 #include <array>
 #include <memory>
+#include <dirent.h>
+#include <sys/syscall.h>
 #include <mutex>
 #include <condition_variable>
 
@@ -56,6 +58,7 @@ namespace c17
   // (defined once in c17_sched.cpp; c17_main.cpp's __tsan_on_report hook fills them)
   std::atomic<int>& tsan_reports();
   std::string& tsan_first();
+  int& verdict_fd();   // pipe of the running case (set right after announce)
 
   // ---------------------------------------------------------------------------------------------------
   // mesh description (shape independent storage)
@@ -380,7 +383,7 @@ namespace c17
     uint32_t seed = 0;
     int mode = 0;       // 0 none, 1 slow subset only, 2 slow subset during its first k cells, 3 slow subset after k cells, 4 jitter, 5 skew + jitter
     int base_us = 0;    // base nap
-    int sites = 31;     // bit 0 start, 1 after assemble (= before the fence wait), 2 inside scatter, 3 finish, 4 inside combine
+    int sites = 31;     // bit 0 start, 1 after assemble (= before the fence wait), 2 inside scatter (always on), 3 finish, 4 inside combine
     int slow_den = 2;   // one thread in slow_den is slow (factor 25)
     int k = 1;
     long budget_us = C17_TSAN ? 3000 : 8000;  // per task
@@ -391,7 +394,7 @@ namespace c17
   {
     Sched s; s.mode = t.pick({ 2, 4, 2, 2, 2, 3 });
     if(s.mode == 0) return s;
-    static const int bases[] = { 100, 20, 5, 200 }; s.seed = t.raw(); s.base_us = bases[t.pick({ 4, 2, 1, 1 })];
+    static const int bases[] = { 100, 20, 50, 200 }; s.seed = t.raw(); s.base_us = bases[t.pick({ 4, 2, 1, 1 })];
     if(ncells > 256) s.base_us = std::min(s.base_us, 20);
     int sm = t.range(0, 31); s.sites = sm == 0 ? 31 : sm; s.slow_den = t.range(2, 3); s.k = t.range(1, 4);
     return s;
@@ -434,7 +437,7 @@ namespace c17
       void nap(int site)
       {
         progress_counter().fetch_add(1, std::memory_order_relaxed);
-        const Sched& s = sh.sched; if(s.mode == 0 || !(s.sites & (1 << site))) return;
+        const Sched& s = sh.sched; if(s.mode == 0 || (site != 2 && !(s.sites & (1 << site)))) return;   // the nap inside scatter (site 2) is what gives the overlap oracle its window: always on
         long f = 1;
         switch(s.mode)
         {
@@ -540,27 +543,47 @@ namespace c17
   }
 
   // ---------------------------------------------------------------------------------------------------
-  // progress watchdog: a deadlock shows as "no instrumented call for wd_ms" (robust against machine load,
-  // cheap enough to shrink); reports like VF_FAIL would and ends the child
+  // progress watchdog. Deadlock = no instrumented call by any thread AND every other thread of the process is
+  // asleep (state 'S' in /proc/self/task/*/stat) at every 10 ms sample for quiet_ms. A thread that is merely
+  // starved by machine load is runnable ('R'), a legitimate nap lasts <= 5 ms and is followed by progress, so load
+  // cannot fake a deadlock; the short window keeps the shrinking of a genuine hang affordable. Fallback: no
+  // progress for wd_ms whatever the states. Reports like VF_FAIL would and ends the child.
   // ---------------------------------------------------------------------------------------------------
+  inline bool all_other_threads_asleep()
+  {
+    const long self = long(syscall(SYS_gettid)); bool asleep = true;
+    DIR* d = opendir("/proc/self/task"); if(!d) return false;
+    while(struct dirent* e = readdir(d))
+    {
+      if(e->d_name[0] < '0' || e->d_name[0] > '9') continue; if(atol(e->d_name) == self) continue;
+      char path[96]; snprintf(path, sizeof path, "/proc/self/task/%s/stat", e->d_name);
+      int fd = open(path, O_RDONLY); if(fd < 0) continue; char buf[512]; ssize_t n = read(fd, buf, sizeof buf - 1); close(fd); if(n <= 0) continue; buf[n] = 0;
+      const char* p = strrchr(buf, ')'); if(!p || !p[1] || !p[2]) continue;
+      if(p[2] != 'S') { asleep = false; break; }
+    }
+    closedir(d); return asleep;
+  }
+
   struct Watchdog
   {
     std::mutex mtx; std::condition_variable cv; bool stop = false; std::thread th;
-    Watchdog(Ctx& c, int wd_ms)
+    Watchdog(Ctx& c, int wd_ms, int quiet_ms = 150)
     {
       int fd = c.fd;
-      th = std::thread([this, fd, wd_ms]
+      th = std::thread([this, fd, wd_ms, quiet_ms]
       {
-        long last = -1; auto t0 = std::chrono::steady_clock::now();
+        long last = -1; auto t0 = std::chrono::steady_clock::now(); auto q0 = t0;
         std::unique_lock<std::mutex> lk(mtx);
         while(!stop)
         {
-          cv.wait_for(lk, std::chrono::milliseconds(20)); if(stop) break;
+          cv.wait_for(lk, std::chrono::milliseconds(10)); if(stop) break;
           long p = progress_counter().load(std::memory_order_relaxed); auto now = std::chrono::steady_clock::now();
-          if(p != last) { last = p; t0 = now; continue; }
-          if(std::chrono::duration_cast<std::chrono::milliseconds>(now - t0).count() > wd_ms)
+          if(p != last) { last = p; t0 = now; q0 = now; continue; }
+          if(!all_other_threads_asleep()) q0 = now;
+          auto ms = [&](std::chrono::steady_clock::time_point a) { return std::chrono::duration_cast<std::chrono::milliseconds>(now - a).count(); };
+          if(ms(q0) > quiet_ms || ms(t0) > wd_ms)
           {
-            J m = J::obj(); m.set("verdict", "fail"); m.set("sym", "hang:no progress of any thread for " + std::to_string(wd_ms) + " ms (deadlock)"); m.set("overrun", 0);
+            J m = J::obj(); m.set("verdict", "fail"); m.set("sym", std::string("hang:no thread made progress and ") + (ms(q0) > quiet_ms ? "all were blocked (deadlock)" : "the time limit passed")); m.set("overrun", 0);
             std::string s = "V" + m.str() + "\n"; (void)!write(fd, s.data(), s.size()); _exit(0);
           }
         }
